@@ -385,9 +385,14 @@ class HttpParser(abc.ABC, Generic[_MsgT]):
 
                     # line found
                     line = data[start_pos:pos]
+                    line_len = len(line)
                     if SEP == b"\n":  # For lax response parsing
+                        # Any number of CRs may precede the LF, but only one
+                        # of them is free: the rest count as part of the line,
+                        # as they do while the line is still incomplete.
+                        line_len -= line.endswith(b"\r")
                         line = line.rstrip(b"\r")
-                    if len(line) > max_line_length:
+                    if line_len > max_line_length:
                         if 0 <= line.find(b"\n") <= max_line_length:
                             # A bare LF within the limit comes first, as it does
                             # when a read ends inside this line.
@@ -546,13 +551,8 @@ class HttpParser(abc.ABC, Generic[_MsgT]):
                     # bytes get appended to this line and leak in the error.
                     if 0 <= self._tail.find(b"\n") <= max_line_length:
                         raise BadHttpMessage("Bad line ending, expected CRLF")
-                    # A trailing CR may be the first half of the line ending
-                    # (the lax parser drops any number of them from a line).
-                    if SEP == b"\n":
-                        partial_len = len(self._tail.rstrip(b"\r"))
-                    else:
-                        partial_len = len(self._tail) - self._tail.endswith(b"\r")
-                    if partial_len > max_line_length:
+                    # A trailing CR may be the first half of the line ending.
+                    if len(self._tail) - self._tail.endswith(b"\r") > max_line_length:
                         raise LineTooLong(self._tail[:100] + b"...", max_line_length)
                     data = EMPTY
                     break
@@ -1039,15 +1039,11 @@ class HttpPayloadParser:
                     max_line_length = self._max_line_size
                     if self._chunk == ChunkState.PARSE_TRAILERS:
                         max_line_length = self._max_field_size
-                    # A trailing CR may be the first half of the line ending
-                    # (the lax parser drops any number of them from a line).
-                    if SEP == b"\n":
-                        partial_len = len(self._chunk_tail.rstrip(b"\r"))
-                    else:
-                        partial_len = len(self._chunk_tail) - self._chunk_tail.endswith(
-                            b"\r"
-                        )
-                    if partial_len > max_line_length:
+                    # A trailing CR may be the first half of the line ending.
+                    if (
+                        len(self._chunk_tail) - self._chunk_tail.endswith(b"\r")
+                        > max_line_length
+                    ):
                         raise LineTooLong(
                             self._chunk_tail[:100] + b"...", max_line_length
                         )
@@ -1103,7 +1099,7 @@ class HttpPayloadParser:
                             set_exception(self.payload, exc)
                             raise exc
                         # Do not buffer more of a line than a complete one may have
-                        if len(chunk.rstrip(b"\r")) > self._max_line_size:
+                        if len(chunk) - chunk.endswith(b"\r") > self._max_line_size:
                             raise LineTooLong(chunk[:100] + b"...", self._max_line_size)
                         self._chunk_tail = chunk
                         self._paused = False
@@ -1164,7 +1160,7 @@ class HttpPayloadParser:
                             set_exception(self.payload, exc)
                             raise exc
                         # Do not buffer more of a line than a complete one may have
-                        if len(chunk.rstrip(b"\r")) > self._max_field_size:
+                        if len(chunk) - chunk.endswith(b"\r") > self._max_field_size:
                             raise LineTooLong(
                                 chunk[:100] + b"...", self._max_field_size
                             )
@@ -1174,10 +1170,13 @@ class HttpPayloadParser:
 
                     line = chunk[:pos]
                     chunk = chunk[pos + len(SEP) :]
+                    line_len = len(line)
                     if SEP == b"\n":  # For lax response parsing
+                        # As for a header line: only one trailing CR is free
+                        line_len -= line.endswith(b"\r")
                         line = line.rstrip(b"\r")
 
-                    if len(line) > self._max_field_size:
+                    if line_len > self._max_field_size:
                         raise LineTooLong(line[:100] + b"...", self._max_field_size)
 
                     self._trailer_lines.append(line)
